@@ -30,6 +30,7 @@ package util
 //@ func (pools BytesPoolBy2n) Get(length int) *[]byte
 //@   requires poolsok(pools) && 0 <= length && length < 2147483648
 //@   ensures  result != nil && len(*result) > length
+//@   ensures  exists k int :: 0 <= k && k < 32 && len(*result) == pow2(k)
 //@   canary ensures result != nil && len(*result) > length + 1
 
 //@ func (pools BytesPoolBy2n) Put(buf *[]byte)
